@@ -766,8 +766,15 @@ impl Default for TexCfg {
 fn join_with_ops(items: Vec<MNode>, ops: Vec<String>) -> Vec<MNode> {
     let mut out = vec![];
     for (i, it) in items.into_iter().enumerate() {
+        let mut it = it;
         if i > 0 {
-            out.push(MNode::mo(&ops[(i - 1) % ops.len()]));
+            let op = &ops[(i - 1) % ops.len()];
+            out.push(MNode::mo(op));
+            // an invisible product of two bare operands (numbers!) reads as one number or a mixed fraction:
+            // the right factor is parenthesised, as a textbook would
+            if op == "\u{2062}" {
+                it = MNode::row(vec![MNode::mo("("), it, MNode::mo(")")]);
+            }
         }
         out.push(it);
     }
@@ -787,7 +794,8 @@ pub fn textbook(operand: BoxedStrategy<MNode>, cfg: TexCfg) -> BoxedStrategy<MNo
             v.push((8, (proptest::collection::vec(i(), 2..=4), sumops).prop_map(|(k, o)| MNode::row(join_with_ops(k, o))).boxed()));
             v.push((4, (proptest::collection::vec(i(), 2..=3), relops).prop_map(|(k, o)| MNode::row(join_with_ops(k, o))).boxed()));
             v.push((4, (proptest::collection::vec(i(), 2..=3), mulops).prop_map(|(k, o)| MNode::row(join_with_ops(k, o))).boxed()));
-            v.push((2, proptest::collection::vec(i(), 2..=3).prop_map(MNode::row).boxed())); // juxtaposition
+            // juxtaposition: every factor after the first is parenthesised
+            v.push((2, proptest::collection::vec(i(), 2..=3).prop_map(|k| MNode::row(k.into_iter().enumerate().map(|(j, it)| if j == 0 { it } else { MNode::row(vec![MNode::mo("("), it, MNode::mo(")")]) }).collect())).boxed()));
             v.push((6, (i(), i()).prop_map(|(a, b)| MNode::el("mfrac", vec![a, b])).boxed()));
             v.push((6, (i(), i()).prop_map(|(a, b)| MNode::el("msup", vec![a, b])).boxed()));
             v.push((4, (i(), i()).prop_map(|(a, b)| MNode::el("msub", vec![a, b])).boxed()));
